@@ -312,4 +312,189 @@ theorem run_patch_neutral {s : St} (hN : NoFailSt s) (sched : List Nat) :
     | none => rfl
     | some s1 => exact ih (noFailSt_step hs hN)
 
+/-! ## Deadlocks of the loop as it is are permanent -/
+
+theorem deadlocked_iff {s : St} :
+    deadlocked s = true ↔ ∃ (j : Nat) (p : PortSt), s.ports[j]? = some p ∧ p.pending = true ∧ p.stream = [] := by
+  unfold deadlocked
+  rw [List.any_eq_true]
+  constructor
+  · rintro ⟨p, hp, hpp⟩
+    obtain ⟨j, hj⟩ := List.mem_iff_getElem?.mp hp
+    simp only [Bool.and_eq_true, List.isEmpty_iff] at hpp
+    exact ⟨j, p, hj, hpp.1, hpp.2⟩
+  · rintro ⟨j, p, hj, h1, h2⟩
+    exact ⟨p, List.mem_of_getElem? hj, by simp [h1, h2]⟩
+
+theorem not_done_of_deadlocked {s : St} (hd : deadlocked s = true) : done s = false := by
+  obtain ⟨j, p, hj, h1, _⟩ := deadlocked_iff.mp hd
+  cases h : done s with
+  | false => rfl
+  | true =>
+    unfold done at h
+    have := List.all_eq_true.mp h p (List.mem_of_getElem? hj)
+    simp [h1] at this
+
+/-- a blocked read is never enabled -/
+theorem step_blocked {fixed : Bool} {s : St} {j : Nat} {p : PortSt} (hj : s.ports[j]? = some p)
+    (he : p.stream = []) : step fixed s j = none := by
+  cases h : step fixed s j with
+  | none => rfl
+  | some s' =>
+    obtain ⟨q, tok, rest, hq, _, hst, _⟩ := step_spec h
+    rw [hj] at hq; cases hq; rw [he] at hst; cases hst
+
+theorem deadlocked_step_asis {s s' : St} {i : Nat} (hd : deadlocked s = true) (hs : step false s i = some s') :
+    deadlocked s' = true := by
+  obtain ⟨j, q, hq, hqp, hqs⟩ := deadlocked_iff.mp hd
+  have hij : i ≠ j := by
+    intro h; subst h
+    rw [step_blocked hq hqs] at hs; cases hs
+  obtain ⟨p, tok, rest, hp, hpend, hst, rfl⟩ := step_spec hs
+  apply deadlocked_iff.mpr
+  refine ⟨j, q, ?_, hqp, hqs⟩
+  simp only [Bool.false_and, Bool.false_eq_true, if_false]
+  rw [List.getElem?_set_ne hij]; exact hq
+
+theorem deadlocked_run_asis {s s' : St} (sched : List Nat) (hd : deadlocked s = true)
+    (hr : run false s sched = some s') : deadlocked s' = true := by
+  induction sched generalizing s with
+  | nil => simp only [run] at hr; cases hr; exact hd
+  | cons i is ih =>
+    simp only [run] at hr
+    split at hr
+    · rename_i s1 h1; exact ih (deadlocked_step_asis hd h1) hr
+    · cases hr
+
+/-! ## Progress and the number of tokens still to be read -/
+
+/-- tokens not yet read, over all ports -/
+def remaining (s : St) : Nat := (s.ports.map (fun p => p.stream.length)).sum
+
+theorem sum_map_set {α : Type} (f : α → Nat) (l : List α) (i : Nat) (p x : α) (hp : l[i]? = some p)
+    (hx : f x + 1 = f p) : ((l.set i x).map f).sum + 1 = (l.map f).sum := by
+  induction l generalizing i with
+  | nil => cases hp
+  | cons a l ih =>
+    cases i with
+    | zero =>
+      simp only [List.getElem?_cons_zero, Option.some.injEq] at hp
+      subst hp
+      simp only [List.set_cons_zero, List.map_cons, List.sum_cons]
+      omega
+    | succ i =>
+      simp only [List.getElem?_cons_succ] at hp
+      have := ih i hp
+      simp only [List.set_cons_succ, List.map_cons, List.sum_cons]
+      omega
+
+/-- every step reads exactly one token -/
+theorem step_remaining {fixed : Bool} {s s' : St} {i : Nat} (hs : step fixed s i = some s') :
+    remaining s' + 1 = remaining s := by
+  obtain ⟨p, tok, rest, hp, _, hst, rfl⟩ := step_spec hs
+  have key := sum_map_set (fun p : PortSt => p.stream.length) s.ports i p
+    (portAfter fixed (s.failed || (fixed && isBad tok)) p tok rest) hp (by simp [hst])
+  unfold remaining
+  split
+  · rw [List.map_map]
+    have : ((fun p : PortSt => p.stream.length) ∘ cancelTerminated) = (fun p : PortSt => p.stream.length) := by
+      funext q; simp
+    rw [this]; exact key
+  · exact key
+
+theorem run_remaining {fixed : Bool} {s s' : St} (sched : List Nat) (hr : run fixed s sched = some s') :
+    remaining s' + sched.length = remaining s := by
+  induction sched generalizing s with
+  | nil => simp only [run] at hr; cases hr; rfl
+  | cons i is ih =>
+    simp only [run] at hr
+    split at hr
+    · rename_i s1 h1
+      have := ih hr
+      have := step_remaining h1
+      simp only [List.length_cons]; omega
+    · cases hr
+
+/-- a pending port with a token to deliver can be stepped -/
+theorem step_enabled {fixed : Bool} {s : St} {j : Nat} {p : PortSt} (hj : s.ports[j]? = some p)
+    (hp : p.pending = true) (hne : p.stream ≠ []) : ∃ s', step fixed s j = some s' := by
+  simp only [step, hj, hp, if_true]
+  cases hst : p.stream with
+  | nil => exact absurd hst hne
+  | cons t r => exact ⟨_, rfl⟩
+
+theorem exists_pending_of_not_done {s : St} (h : done s = false) :
+    ∃ (j : Nat) (p : PortSt), s.ports[j]? = some p ∧ p.pending = true := by
+  unfold done at h
+  have : ¬ ∀ p ∈ s.ports, (!p.pending) = true := fun hh => by
+    rw [List.all_eq_true.mpr hh] at h; cases h
+  simp only [Classical.not_forall] at this
+  obtain ⟨p, hp, hpp⟩ := this
+  obtain ⟨j, hj⟩ := List.mem_iff_getElem?.mp hp
+  exact ⟨j, p, hj, by simpa using hpp⟩
+
+theorem inv_progress {s : St} (hI : Inv s) (hf : s.failed = true) (hd : done s = false) :
+    ∃ i s', step true s i = some s' := by
+  obtain ⟨j, p, hj, hp⟩ := exists_pending_of_not_done hd
+  have hpm := List.mem_of_getElem? hj
+  refine ⟨j, step_enabled hj hp ?_⟩
+  intro he
+  have := (hI p hpm).2 hf (inv_pending_empty hI hpm he)
+  rw [hp] at this; cases this
+
+/-! ## The loop as it is: when exactly it waits forever -/
+
+/-- (a) as in `Inv`; (c) a read is outstanding exactly on the ports that are not (terminated with empty checklist) -/
+def InvA (s : St) : Prop :=
+  ∀ p ∈ s.ports, (p.terminated = false → hasTerm p.stream = true) ∧
+    p.pending = !(p.terminated && p.checklist.isEmpty)
+
+theorem invA_init {streams : List (List Tok)} (h : ∀ l ∈ streams, hasTerm l = true) : InvA (initSt streams) := by
+  intro p hp
+  simp only [initSt, List.mem_map] at hp
+  obtain ⟨l, hl, rfl⟩ := hp
+  exact ⟨fun _ => h l hl, rfl⟩
+
+theorem invA_step {s s' : St} {i : Nat} (hs : step false s i = some s') (hI : InvA s) : InvA s' := by
+  obtain ⟨p, tok, rest, hp, hpend, hst, rfl⟩ := step_spec hs
+  have hIp := hI p (List.mem_of_getElem? hp)
+  intro q hq
+  simp only [Bool.false_and, Bool.false_eq_true, if_false] at hq
+  rcases List.mem_or_eq_of_mem_set hq with h | rfl
+  · exact hI q h
+  · refine ⟨fun h => ?_, rfl⟩
+    simp only [portAfter_terminated, Bool.or_eq_false_iff] at h
+    rw [portAfter_stream]
+    exact hasTerm_tail (hst ▸ hIp.1 h.1) (isTerm_false_iff.mp h.2)
+
+theorem invA_reachable {streams : List (List Tok)} (hw : ∀ l ∈ streams, hasTerm l = true) {s : St}
+    (hr : Reachable false streams s) : InvA s := by
+  induction hr with
+  | init => exact invA_init hw
+  | step _ hs ih => exact invA_step hs ih
+
+theorem invA_deadlocked_iff {s : St} (hI : InvA s) :
+    deadlocked s = true ↔ ∃ p ∈ s.ports, p.stream = [] ∧ p.terminated = true ∧ p.checklist ≠ [] := by
+  unfold deadlocked
+  rw [List.any_eq_true]
+  constructor
+  · rintro ⟨p, hp, hpp⟩
+    simp only [Bool.and_eq_true, List.isEmpty_iff] at hpp
+    have hIp := hI p hp
+    have ht : p.terminated = true := by
+      cases ht : p.terminated with
+      | true => rfl
+      | false => have := hIp.1 ht; rw [hpp.2] at this; cases this
+    refine ⟨p, hp, hpp.2, ht, fun hc => ?_⟩
+    have := hIp.2
+    rw [hpp.1, ht, hc] at this
+    cases this
+  · rintro ⟨p, hp, h1, h2, h3⟩
+    refine ⟨p, hp, ?_⟩
+    have := (hI p hp).2
+    rw [h2] at this
+    cases hc : p.checklist with
+    | nil => exact absurd hc h3
+    | cons a l => rw [hc] at this; simp [this, h1]
+
 end SFV.LoopComb
